@@ -8,7 +8,7 @@ equal due times —, clock ticks, reset) lead from `s` to `s'` emitting the trac
 every successful `addEvent` gets a registration id (`registered`), kept by `rescheduleEvent`.
 -/
 import LimnoriaModel.C18.ArgsInv
-import LimnoriaModel.C18.PluginLemmas
+import LimnoriaModel.C18.PluginCons
 import LimnoriaModel.C18.Threads
 namespace C18
 open Py List
@@ -379,6 +379,40 @@ theorem load_restores_invariant (s : Plug.PState) (h : Plug.Inv s) :
     Plug.Inv (Plug.load s).1 ∧ Plug.Inv (Plug.unload s).1 ∧ Plug.Inv (Plug.restart s).1 :=
   ⟨load_op_inv s h, unload_inv s h, restart_inv s h⟩
 
+open Plug in
+/-- **The whole-history law of the plugin layer**: over any interleaving of `scheduler
+add/remind/remove/repeat/list`, load, unload, reload, restarts of the bot, `_flush`, other plugins'
+scheduling, clock advances and `run()`, the one-shot commands users added are exactly (as
+multisets) those that ran, those that were removed and those still pending — in the live table,
+or in the saved one while the plugin is not loaded. -/
+theorem plugin_conservation (now : Nat) (ops : List Plug.POp) (r : Plug.PState × List Plug.PEv)
+    (h : Plug.prun (Plug.pinit now) ops = some r) :
+    (Plug.addedCmds r.2).Perm (Plug.ranCmds r.2 ++ Plug.removedCmds r.2 ++ Plug.pendingCmds r.1) := by
+  rw [perm_iff_count]
+  intro x
+  have := prun_bal ops _ r (pinit_inv now) h x
+  simp only [count_append, pendingCmds, pinit, if_true, singles, count_nil] at *
+  omega
+
+open Plug in
+/-- **Each added, never removed one-shot command runs exactly once** — at most once along the
+way, and once it is neither pending nor removed it has run: when users give every command its own
+text (`Nodup`), the commands that ran, were removed or are pending are pairwise distinct and are
+exactly the added ones. -/
+theorem plugin_exactly_once (now : Nat) (ops : List Plug.POp) (r : Plug.PState × List Plug.PEv)
+    (h : Plug.prun (Plug.pinit now) ops = some r) (hd : (Plug.addedCmds r.2).Nodup) :
+    (Plug.ranCmds r.2 ++ Plug.removedCmds r.2 ++ Plug.pendingCmds r.1).Nodup ∧
+    ∀ c ∈ Plug.addedCmds r.2, c ∉ Plug.removedCmds r.2 → c ∉ Plug.pendingCmds r.1 → c ∈ Plug.ranCmds r.2 := by
+  have hp := plugin_conservation now ops r h
+  refine ⟨hp.nodup_iff.mp hd, ?_⟩
+  intro c hc h1 h2
+  have := hp.mem_iff.mp hc
+  simp only [mem_append] at this
+  rcases this with (h' | h') | h'
+  · exact h'
+  · exact absurd h' h1
+  · exact absurd h' h2
+
 /-! ### non-vacuity (plugin layer) -/
 
 def exPlugOps : List Plug.POp :=
@@ -392,6 +426,9 @@ def exPlugOps : List Plug.POp :=
 example : (Plug.prun (Plug.pinit 1000) exPlugOps).map (fun r => r.2.filterMap fun
       | .ran _ c _ => some c
       | _ => none) = some [3, 2, 4] := by decide
+-- `plugin_exactly_once`: the added commands of that history are pairwise distinct
+example : (Plug.prun (Plug.pinit 1000) exPlugOps).map (fun r => (Plug.addedCmds r.2, Plug.removedCmds r.2)) =
+    some ([1, 2, 4], [1]) := by decide
 -- `reload_keeps_events` / `reload_each_exactly_once`: a loaded state with three pending events
 example : ((Plug.prun (Plug.pinit 1000) (exPlugOps.take 4)).map fun r => (r.1.loaded, Plug.tkeys r.1.table)) =
     some (true, [.id 0, .id 1, .name ['r', 'a']]) := by decide
